@@ -145,7 +145,8 @@ def run_case(case):
     tower = (float(rng.uniform(-0.5, 1.5) * nx * dx), float(rng.uniform(-0.5, 1.5) * ny * dy))
     wa = float(rng.uniform(0, 2 * np.pi))
     wind = (float(3 * math.cos(wa)), float(3 * math.sin(wa)))
-    gkind = str(rng.choice(["contribution", "circular", "upwind", "crosswind", "sector", "random", "random_ties", "rank_map", "class_codes"]))
+    gkind = str(rng.choice(["contribution", "circular", "upwind", "crosswind", "sector", "random", "random_ties", "rank_map", "class_codes",
+                            "random_with_infinities", "log_of_field"]))
     if gkind == "contribution":
         g = U.source_area_contribution(f)
     elif gkind == "circular":
@@ -158,6 +159,16 @@ def run_case(case):
         g = U.source_area_sector(X, Y, tower, wind)
     elif gkind == "random":
         g = rng.permutation(n).reshape(f.shape).astype(float) + rng.random()
+    elif gkind == "random_with_infinities":
+        # infinities are ordered values like any other: the largest base value written as +inf, the smallest as -inf (1 / r^2 with the
+        # tower on a node, the logarithm of a field with one exact zero)
+        g = rng.permutation(n).reshape(f.shape).astype(float) + rng.random()
+        g[g == g.max()] = np.inf
+        if rng.random() < 0.6:
+            g[g == g.min()] = -np.inf
+    elif gkind == "log_of_field":
+        with np.errstate(divide="ignore"):
+            g = np.log(f)          # -inf (tied) wherever the footprint is exactly zero
     elif gkind == "rank_map":
         # an integer-typed base field (ranks 0 .. n-1; signed and unsigned types, the rank 0 included)
         gt_ = [np.int64, np.int32, np.uint32, np.uint16, np.uint64][int(rng.integers(5))]
@@ -208,6 +219,8 @@ def run_case(case):
     tie_free = len(np.unique(g)) == n
     # strictly increasing transforms of g (kept only if they stay injective and order-preserving on this data)
     for name, T in (("affine", lambda a: 3.0 * a + 7.0), ("cube", lambda a: a**3), ("atan", lambda a: np.arctan(a / (1 + np.abs(g).max())))):
+        if name != "affine" and not np.all(np.isfinite(g)):
+            continue   # (cube of a logarithm / the arctangent scale are not meaningful with infinite entries)
         g2 = T(g.astype(float) if g.dtype.kind in "iu" else g)
         if np.array_equal(np.argsort(g2.ravel(), kind="stable"), o) and len(np.unique(g2)) == len(np.unique(g)):
             r2 = bldfm.get_source_area(f, g2)
